@@ -319,6 +319,9 @@ func (x *X) makeInput(op *Op, b *Built) (any, func()) {
 	raw := op.Arg == "raw"
 	switch op.Front {
 	case "", "map":
+		if op.Arg == "given" {
+			return x.given, noop
+		}
 		if raw {
 			return op.Input.ToGo(), noop
 		}
